@@ -81,7 +81,7 @@ func init() {
 			})
 			memDo(r, memCase{Mem: "bytes", MaxA: 4, MaxW: 3})
 			// (b) histories
-			alpha := memAlpha(seq(0, 7), seq(1, 3), []string{"const", "narrow", "wide", "samecopy"})
+			alpha := memAlpha(seq(0, 7), seq(1, 3), []string{"const", "narrow", "wide", "samecopy", "zero"})
 			depth := 2
 			if !r.Quick() {
 				depth = 3
@@ -138,11 +138,14 @@ func init() {
 
 	checks["C16"] = eng.Check{
 		Hist:        true,
-		Rule:        "Overlay(base, Sparse): base = each of the 64 Bytes layouts over addresses 0..5 and 4 pre-filled (fragmented, symbolic) Sparse memories; every history of <=2 (quick) / <=3 (thorough) stores (addr 0..5, width 1..3 (+4 quick depth<=2), constant/symbolic/narrower values and constants equal to the base layer's content at that place) through the real Overlay; after each history every Load/Missing for a in 0..7, w in {1,2,3,4,6,8} and Blocks() compared with the layered byte map (upper layer wins, else base), and the base's own full surface compared with its initial model; plus reads of every width 1..72 over 9 layouts whose layer changes lie at offsets around 32 and 64 of the read. On the sparse bases and on every 9th (thorough: every) Bytes layout the histories of <=2 stores use the wide alphabet and are run in three read/write interleavings (reads after every store, none between the stores, none before the end). Non-trivial = history with >=2 stores.",
+		Rule:        "Overlay(base, Sparse): base = each of the 64 Bytes layouts over addresses 0..5 and 4 pre-filled (fragmented, symbolic) Sparse memories and 3 bases holding zero bytes; every history of <=2 (quick) / <=3 (thorough) stores (addr 0..5, width 1..3 (+4 quick depth<=2), constant/symbolic/narrower values and constants equal to the base layer's content at that place) through the real Overlay; after each history every Load/Missing for a in 0..7, w in {1,2,3,4,6,8} and Blocks() compared with the layered byte map (upper layer wins, else base), and the base's own full surface compared with its initial model; plus reads of every width 1..72 over 9 layouts whose layer changes lie at offsets around 32 and 64 of the read. On the sparse and zero bases and on every 16th (thorough: every) Bytes layout the histories of <=2 stores use the wide alphabet and are run in three read/write interleavings (reads after every store, none between the stores, none before the end). Non-trivial = history with >=2 stores.",
 		Assumptions: []string{"no address wrap", "values judged under 3 valuations"},
 		Run: func(r *eng.Run) {
 			alpha := memAlpha(seq(0, 5), seq(1, 3), []string{"const", "sym", "basecopy"})
-			alpha2 := memAlpha(seq(0, 5), seq(1, 4), []string{"const", "sym", "narrow", "gadgetnarrow", "basecopy", "samecopy"})
+			alpha2 := memAlpha(seq(0, 5), seq(1, 4), []string{"const", "sym", "narrow", "gadgetnarrow", "basecopy", "samecopy", "zero"})
+			if r.Quick() {
+				alpha2 = memAlpha(seq(0, 4), []int{1, 2, 4}, []string{"const", "sym", "narrow", "gadgetnarrow", "basecopy", "samecopy", "zero"})
+			}
 			depth := 2
 			if !r.Quick() {
 				depth = 3
@@ -161,17 +164,21 @@ func init() {
 				base{kind: "sparse", pre: []memOp{{0, 4, "sym"}}},
 				base{kind: "sparse", pre: []memOp{{0, 4, "sym"}, {1, 2, "const"}}},
 				base{kind: "sparse", pre: []memOp{{1, 2, "const"}, {4, 2, "sym"}, {2, 1, "const"}}},
+				// bases holding zero bytes (a zero-filled image; zero and non-zero bytes mixed)
+				base{kind: "bytes", blocks: []memBlock{{0, "000000000000"}}},
+				base{kind: "bytes", blocks: []memBlock{{0, "0000a300"}, {5, "00"}}},
+				base{kind: "sparse", pre: []memOp{{0, 4, "zero"}, {4, 2, "const"}}},
 			)
 			r.Note("bases=%d alphabet=%d/%d depth=%d", len(bases), len(alpha), len(alpha2), depth)
 			for bi, b := range bases {
 				b := b
 				memDo(r, memCase{Mem: "overlay", Base: b.kind, Blocks: b.blocks, Pre: b.pre, MaxA: 7, MaxW: 4, ExtraW: []int{6, 8}})
 				a2 := alpha2
-				if r.Quick() && bi%9 != 3 && bi < 64 {
-					a2 = alpha // quick: the wide alphabet on every 9th layout and the sparse bases only
+				if r.Quick() && bi%16 != 3 && bi < 64 {
+					a2 = alpha // quick: the wide alphabet on every 16th layout, the sparse and the zero bases only
 				}
 				do := memDo
-				if !r.Quick() || bi%9 == 3 || bi >= 64 {
+				if !r.Quick() || bi%16 == 3 || bi >= 64 {
 					do = memDoRW // all read/write interleavings
 				}
 				histories(r, a2, 2, func(ops []memOp) {
